@@ -46,7 +46,52 @@ func zzSourceCache(capv int64) (*Store[uint64, uint64], []zzSaved, int64) {
 			s.Get(2)
 		}
 	}
+	if vfConfig("HITALL", 0) == 1 {
+		// promotions without a following write: the protected region is above its size when the cache is saved
+		for r := 0; r < 16; r++ {
+			for i := 0; i < n; i++ {
+				s.Get(uint64(i + 1))
+			}
+		}
+		if s.policy.slru.protected.Len() > int(s.policy.slru.protected.capacity) {
+			vfReach("protected-above-its-size")
+		}
+	}
 	s.Wait()
+	if vfConfig("ADAPT", 0) == 1 {
+		// let the hill climber move the window through the real policy: a hit-heavy sample period, then a
+		// miss-heavy one (the second adjustment goes the other way and is not clamped)
+		round := func(hits, newKeys int, base uint64) {
+			for i := 0; i < hits; i++ {
+				s.Get(uint64(1 + i%n))
+			}
+			for i := 0; i < newKeys; i++ {
+				s.Set(base+uint64(i), base+uint64(i), 1, 0)
+			}
+			s.Wait()
+		}
+		sample := int(s.policy.sketch.SampleSize)
+		round(sample+16, 2, 1000)
+		round(0, sample+16, 2000)
+		round(32, 4, 5000)
+		def := uint(float32(capv) * 0.01)
+		if def < 1 {
+			def = 1
+		}
+		if s.policy.window.capacity != def {
+			vfNote("windowAdapted", 1)
+			vfReach("window-adapted")
+		} else {
+			vfNote("windowAdapted", 0)
+		}
+	} else {
+		vfNote("windowAdapted", 0)
+	}
+	return s, zzSnapshot(s), origin
+}
+
+// zzSnapshot lists what the policy holds, region by region, most recent first.
+func zzSnapshot(s *Store[uint64, uint64]) []zzSaved {
 	var saved []zzSaved
 	add := func(l *List[uint64, uint64], region uint8) {
 		o := 0
@@ -59,7 +104,7 @@ func zzSourceCache(capv int64) (*Store[uint64, uint64], []zzSaved, int64) {
 	add(s.policy.window, LIST_WINDOW)
 	add(s.policy.slru.probation, LIST_PROBATION)
 	add(s.policy.slru.protected, LIST_PROTECTED)
-	return s, saved, origin
+	return saved
 }
 
 func zzRegionOf(e *Entry[uint64, uint64]) uint8 {
@@ -83,6 +128,21 @@ func ZZ_C11_RoundTrip() {
 	err := src.Persist(7, w)
 	vfAssert("save-succeeds", err == nil)
 	vfSplitBlocks(false)
+	// saving may complete the policy's pending housekeeping (demotions from an over-full protected region) but
+	// loses nothing: the saved cache is the source cache as it is after the call
+	after := zzSnapshot(src)
+	vfAssert("save-keeps-every-entry", len(after) == len(saved))
+	for _, a := range saved {
+		found := false
+		for _, b := range after {
+			if a.key == b.key && a.val == b.val && a.cost == b.cost && a.expire == b.expire {
+				found = true
+			}
+		}
+		vfAssert("save-keeps-every-entry", found)
+	}
+	saved = after
+	zzAccounted(src, "source-after-save")
 	d := vfI64("advance")
 	vfAssume(d >= 0)
 	vfAssume(d <= 1<<31)
